@@ -140,15 +140,24 @@ fn generic_view<'a>(q: &'a Q) -> HamView<'a> {
                     mat.push(b.at(i, o).unwrap());
                 }
             }
-            TableBond { vars: vs.clone(), constant: b.is_constant(), mat }
+            // the constant flag of a bond is recomputed from the MATRIX (all 4^k entries equal),
+            // never taken from the library's own `is_constant()` / `is_constant_diag()`
+            let constant = mat.iter().all(|x| *x == mat[0]);
+            TableBond { vars: vs.clone(), constant, mat }
         })
         .collect();
     let token = show_table_ham(&bonds);
     let vars2 = vars.clone();
+    let consts: Vec<bool> = bonds.iter().map(|b| b.constant).collect();
+    for (b, c) in q.get_bonds().iter().zip(consts.iter()) {
+        if b.is_constant_diag() && !*c {
+            stat("generic.bond_const_diag_not_const", 1);
+        }
+    }
     HamView {
         token,
         nbonds: vars.len(),
-        edge: Box::new(move |b| (vars2[b].clone(), q.get_bonds()[b].is_constant())),
+        edge: Box::new(move |b| (vars2[b].clone(), consts[b])),
         w: Box::new(move |b, i, o| q.get_bonds()[b].at(i, o).unwrap_or(f64::NAN)),
     }
 }
@@ -996,6 +1005,65 @@ fn build_generic(r: &mut SplitMix64, kind: u64, nvars: usize, state: Vec<bool>, 
                 }
             }
         }
+        4 => {
+            // interactions whose DIAGONAL is constant while the MATRIX is not (their ops must not
+            // be flagged constant): one-site energy shifts `[c,c]`, one-site full matrices
+            // `[a,b,b,a]` with a != b, two-site full matrices with constant diagonal and a
+            // non-constant off-diagonal part; next to Ising-symmetric two-site terms and genuinely
+            // constant single-site terms, so that cluster updates run. Random registration order.
+            let mut terms: Vec<(u8, usize)> = vec![];
+            for v in 0..nvars - 1 {
+                terms.push((0, v));
+            }
+            for v in 0..nvars {
+                terms.push((1, v));
+                match r.below(3) {
+                    0 => terms.push((2, v)),
+                    1 => terms.push((3, v)),
+                    _ => {
+                        terms.push((2, v));
+                        terms.push((3, v));
+                    }
+                }
+            }
+            for v in 0..nvars - 1 {
+                if r.coin() {
+                    terms.push((4, v));
+                }
+            }
+            for i in (1..terms.len()).rev() {
+                let j = r.below(i as u64 + 1) as usize;
+                terms.swap(i, j);
+            }
+            let j = *r.pick(&[0.5, 1.0, 1.5]);
+            let c = *r.pick(&[0.5, 1.0, 2.0]);
+            let shift = *r.pick(&[0.25, 0.5, 1.0]);
+            let (a, b) = *r.pick(&[(1.0, 0.5), (0.5, 1.0), (0.0, 1.0), (2.0, 0.25)]);
+            let ferro = r.coin();
+            for (k, v) in terms {
+                match k {
+                    0 => {
+                        let m = if ferro { vec![j, 0.0, 0.0, j] } else { vec![0.0, j, j, 0.0] };
+                        q.make_diagonal_interaction(m, vec![v, v + 1]).unwrap();
+                    }
+                    1 => q.make_interaction(vec![c, c, c, c], vec![v]).unwrap(),
+                    2 => q.make_diagonal_interaction(vec![shift, shift], vec![v]).unwrap(),
+                    3 => q.make_interaction(vec![a, b, b, a], vec![v]).unwrap(),
+                    _ => {
+                        // constant diagonal d, exchange 01<->10 and pair flips 00<->11
+                        let mut m = vec![0.0; 16];
+                        for d in [0usize, 5, 10, 15] {
+                            m[d] = shift;
+                        }
+                        m[6] = 0.5;
+                        m[9] = 0.5;
+                        m[3] = 0.25;
+                        m[12] = 0.25;
+                        q.make_interaction(m, vec![v, v + 1]).unwrap();
+                    }
+                }
+            }
+        }
         _ => {
             // mixed: three-variable diagonal term, offset constructors, non-symmetric site terms
             if nvars >= 3 {
@@ -1015,7 +1083,7 @@ fn build_generic(r: &mut SplitMix64, kind: u64, nvars: usize, state: Vec<bool>, 
 }
 
 fn generic_scenario(ctx: &mut Ctx, r: &mut SplitMix64, ncalls: usize) {
-    let kind = *r.pick(&[0u64, 1, 2, 3, 3]);
+    let kind = *r.pick(&[0u64, 1, 2, 3, 3, 4, 4]);
     let nvars = r.range(2, 4) as usize;
     let loops = kind == 0 || (kind != 3 && r.coin());
     let seed_r = r.next();
